@@ -1006,9 +1006,9 @@ func ruleDefaultRoot(r *Run) {
 		}
 		guarded := false
 		for _, g := range guardsOf(st.Block()) {
-			if bo, ok := g.Cond.(*ssa.BinOp); ok {
-				if lc, ok := bo.X.(*ssa.Call); ok && calleeName(lc) == "builtin.len" {
-					if k, isC := constInt(bo.Y); isC && k == 0 && bo.Op == token.EQL && g.True {
+			if x, y, op, ok := g.cmp(); ok {
+				if lc, ok := x.(*ssa.Call); ok && calleeName(lc) == "builtin.len" {
+					if k, isC := constInt(y); isC && ((k == 0 && (op == token.EQL || op == token.LEQ)) || (k == 1 && op == token.LSS)) {
 						guarded = true
 					}
 				}
